@@ -230,7 +230,8 @@ func (g *gen) parDesc() string {
 	if g.o.Special && g.r.chance(40) {
 		pool := []string{"---", "===", "----------", "# one", "## two", "### three", "- item", "* item", "+ item", "> quoted",
 			"| a | b |", "___", "***", "~~~", "```", "first line\nsecond line", "title\n---", "title\n===", "a\n  ## b\nc",
-			"text\n- item\n> quote", "  # indented", "\t- tab"}
+			"text\n- item\n> quote", "  # indented", "\t- tab",
+			"# Limits  ", "## trailing blanks   \nnext line", "  # indented and trailing  ", "# crlf \r\nsecond", "- item\t\t", "=== \t ", "plain  \n# heading after a hard break  "}
 		return pool[g.r.below(len(pool))]
 	}
 	return g.desc()
@@ -290,6 +291,19 @@ func (g *gen) pname(prefix string) string {
 func (g *gen) desc() string {
 	if g.r.chance(55) {
 		return ""
+	}
+	if g.o.Special && g.r.chance(12) { // long descriptions: 101..400 bytes, with and without blanks, multi-byte runes around byte 100
+		n := 101 + g.r.below(300)
+		switch g.r.below(4) {
+		case 0:
+			return "d" + strings.Repeat("x", n)
+		case 1:
+			return "d" + strings.Repeat("word ", n/5) + "end"
+		case 2:
+			return "d" + strings.Repeat("y", 96+g.r.below(4)) + strings.Repeat("\u00e9\u65e5", 20) + " tail"
+		default:
+			return "d" + strings.Repeat("z", 97+g.r.below(6)) + " " + strings.Repeat("w", n)
+		}
 	}
 	return "d" + g.word(1, 14) + "x"
 }
